@@ -45,7 +45,8 @@ def rank(an, sev):
 
 def faces(ctx, datas, opt, an, fk, fickling, cli_main, idx, chan="path"):
     from fickling.exception import UnsafeFileError
-    path = os.path.join(ctx.tmp, f"f{idx}.pkl")
+    # two of three cases re-use one path (the faces are functions of the file's present content, whatever was there before)
+    path = os.path.join(ctx.tmp, "model.pkl" if idx % 3 else f"f{idx}.pkl")
     with open(path, "wb") as f:
         for d in datas:
             f.write(d)
@@ -146,6 +147,7 @@ def run(ctx):
         except Exception:  # noqa: BLE001
             continue
     recs, skipped = [], 0
+    ctx.rng.shuffle(cases)       # neighbours on the re-used path differ in their severity vectors
     for c in cases:
         if c["kind"] == "cmp":
             a, b, op = c["cell"]
